@@ -263,6 +263,10 @@ func c16One(x *ctx, c fmtCase) bool {
 		}
 		r := loadInProcess(dir, LoadCase{Files: files, Main: "cfg." + e.ext, Note: c.String()})
 		o := one{ext: e.ext, outs: map[string]string{}}
+		if exhausted(r) {
+			os.RemoveAll(dir)
+			return false
+		}
 		switch {
 		case r.hang:
 			o.err = "hang"
@@ -287,6 +291,10 @@ func c16One(x *ctx, c fmtCase) bool {
 				os.Remove(dir + "/trace")
 				br := runBinary(dir, append([]string{"-c", "cfg." + e.ext}, cmd...)...)
 				x.res.Extra["binary_runs"]++
+				if br.exhausted {
+					os.RemoveAll(dir)
+					return false // not judged
+				}
 				tr, _ := os.ReadFile(dir + "/trace")
 				out := br.out
 				if cmd[0] == "graph" && br.code == 0 {
